@@ -481,6 +481,23 @@ func TestC20(t *testing.T) {
 		return true
 	}
 	bidder3 := world.Addrs[3].String()
+	// deterministic pass: every query command once, on objects that exist
+	for _, fixed := range [][]string{{"params"}, {"get-auction", "0"}, {"get-bid", "0", "1"}, {"get-allowed-bidder", "0", bidder3}, {"list-auction"},
+		{"list-bid", "--auction-id", "0"}, {"list-allowed-bidder", "--auction-id", "0"}, {"list-vesting-queue", "--auction-id", "0"}} {
+		if !haveCmd["query/"+fixed[0]] {
+			continue
+		}
+		out, recs, err := runQuery(fixed...)
+		if len(recs) != 1 {
+			report(col, t, "C20/query-command-failed/"+fixed[0], "query fundraising %s sent %d requests: %v\n%s", strings.Join(fixed, " "), len(recs), err, out)
+			continue
+		}
+		checkDisplay(t, fixed[0], out, err)
+		col.Case(map[string]any{"cmd": fixed[0], "args": fixed[1:], "pass": "deterministic"}, false, map[string]int{"c20:query-deterministic/" + fixed[0]: 1}, nil)
+	}
+	if t.Failed() {
+		return
+	}
 	rapid.Check(t, func(rt *rapid.T) {
 		var qCmds []cmdInfo
 		for _, ci := range cmds {
